@@ -71,13 +71,16 @@ theorem event_exit (b : Nat) (op : Op) (st : OpSt) (t : Trig) (sc : Script)
     rw [this] at h; cases h
 
 /-- a batch that makes `handler` return true ends with the wake-up operator's five steps, whatever
-events follow it in the array -/
+events follow it in the array; no system call was left hanging, and whatever is in `p.hups` then was
+there before or was queued by an event in front of the close message -/
 theorem loop_exit (evs : List Ev) : ∀ (b : Nat) (st : Nat → OpSt) (h : List (Nat × Bool)),
     (handleLoop b st h evs).exit = true →
       ∃ pre e post l, evs = pre ++ e :: post ∧ e.op.wake = true ∧
         (handleLoop b st h evs).tr =
           l ++ [(e.id, .wakeRead), (e.id, .trigStore), (e.id, .closeWop), (e.id, .closeEp), (e.id, .done)] ∧
-        (∀ x ∈ l, ∃ e' ∈ pre, e'.id = x.1) ∧ (handleLoop b st h evs).ran = [] := by
+        (∀ x ∈ l, ∃ e' ∈ pre, e'.id = x.1) ∧ (handleLoop b st h evs).ran = [] ∧
+        (handleLoop b st h evs).stuck = false ∧
+        (∀ p ∈ (handleLoop b st h evs).hups, p ∈ h ∨ ∃ e' ∈ pre, e'.id = p.1) := by
   induction evs with
   | nil => intro b st h hx; simp [handleLoop_nil] at hx
   | cons e es ih =>
@@ -87,13 +90,17 @@ theorem loop_exit (evs : List Ev) : ∀ (b : Nat) (st : Nat → OpSt) (h : List 
     · rename_i hc
       simp only at hx
       have he := event_exit _ _ _ _ _ hx
-      refine ⟨[], e, es, [], rfl, he.2.1, ?_, by simp, ?_⟩
+      refine ⟨[], e, es, [], rfl, he.2.1, ?_, by simp, ?_, ?_, ?_⟩
       · simp only [hc, if_true, he.2.2.1, List.map_cons, List.map_nil, List.nil_append]
       · simp only [hc, if_true]
+      · rw [if_pos hc]; exact he.2.2.2.2
+      · rw [if_pos hc]
+        simp only [he.2.2.2.1]
+        intro p hp; exact Or.inl hp
     · rename_i hc
       simp only at hx
-      rcases ih _ _ _ hx with ⟨pre, e', post, l, hes, hw, htr, hl, hran⟩
-      refine ⟨e :: pre, e', post, (handleEvent b e.op (st e.id) e.trig e.sc).tr.map (e.id, ·) ++ l, by simp [hes], hw, ?_, ?_, ?_⟩
+      rcases ih _ _ _ hx with ⟨pre, e', post, l, hes, hw, htr, hl, hran, hst, hh⟩
+      refine ⟨e :: pre, e', post, (handleEvent b e.op (st e.id) e.trig e.sc).tr.map (e.id, ·) ++ l, by simp [hes], hw, ?_, ?_, ?_, ?_, ?_⟩
       · simp only [hc, if_false, Bool.false_eq_true, htr, List.append_assoc]
       · intro x hxm
         simp only [List.mem_append, List.mem_map] at hxm
@@ -102,6 +109,21 @@ theorem loop_exit (evs : List Ev) : ∀ (b : Nat) (st : Nat → OpSt) (h : List 
         · rcases hl x hxm with ⟨e'', he'', hid⟩
           exact ⟨e'', List.mem_cons_of_mem _ he'', hid⟩
       · simp only [hc, if_false, Bool.false_eq_true, hran]
+      · rw [if_neg hc]; exact hst
+      · rw [if_neg hc]
+        intro p hp
+        rcases hh p hp with hm | ⟨e'', he'', hid⟩
+        · cases hhup : (handleEvent b e.op (st e.id) e.trig e.sc).hup with
+          | none => rw [hhup] at hm; exact Or.inl hm
+          | some hb =>
+            rw [hhup] at hm
+            rcases List.mem_append.1 hm with hm | hm
+            · exact Or.inl hm
+            · right
+              refine ⟨e, List.mem_cons_self .., ?_⟩
+              simp only [List.mem_singleton] at hm
+              rw [hm]
+        · exact Or.inr ⟨e'', List.mem_cons_of_mem _ he'', hid⟩
 
 theorem loop_ran_nil (evs : List Ev) : ∀ (b : Nat) (st : Nat → OpSt) (h : List (Nat × Bool)),
     (handleLoop b st h evs).ran = [] := by
@@ -120,9 +142,9 @@ theorem batch_fields (b : Nat) (st : Nat → OpSt) (evs : List Ev) :
     (handleBatch b st evs).exit = (handleLoop b st [] evs).exit ∧
     (handleBatch b st evs).stuck = (handleLoop b st [] evs).stuck ∧
     (handleBatch b st evs).ran =
-      (if (handleLoop b st [] evs).exit || (handleLoop b st [] evs).stuck then []
+      (if (handleLoop b st [] evs).stuck then []
        else ((handleLoop b st [] evs).hups.filter (·.2)).map (·.1)) := by
-  by_cases hc : ((handleLoop b st [] evs).exit || (handleLoop b st [] evs).stuck) = true
+  by_cases hc : (handleLoop b st [] evs).stuck = true
   · have hr := loop_ran_nil evs b st []
     simp only [handleBatch, hc, if_true, hr, and_self]
   · simp only [handleBatch, hc, if_false, Bool.false_eq_true, and_self]
